@@ -552,6 +552,27 @@ func runProgCheck(pc *ProgCheck, tier string) *evid.Report {
 				}
 			}
 			if !confirmed {
+				// the oracle is a function of the implementation's result: a failure that shows in some fresh
+				// processes and not in others means that this result itself varies from run to run (map
+				// order, scheduling). It was observed, so it is reported, with that remark.
+				shown := 0
+				const attempts = 8
+				for k := 0; k < attempts; k++ {
+					w, err := startWorker(pc.ID, tier)
+					if err != nil {
+						break
+					}
+					if ok, _ := shows(w, f); ok {
+						shown++
+					}
+					w.kill()
+				}
+				if shown > 0 {
+					f.Detail += fmt.Sprintf("\n(not deterministic: shown by %d of %d further fresh processes on the same program; the result of the implementation varies from run to run)", shown, attempts)
+					confirmed = true
+				}
+			}
+			if !confirmed {
 				r.Internal(fmt.Sprintf("failure %s/%s on vector %v did not reproduce, neither in a fresh process nor after the history of its worker (uncaptured nondeterminism)", f.Clause, f.Sig, f.Vector))
 			}
 		}
